@@ -123,6 +123,27 @@ reg(
     "DESIGN.md §3 C20",
 )
 
+reg(
+    "C01",
+    "exploration",
+    "Hypothesis-generated project construction recipes interpreted through the public API; round-trip oracle on a full public-attribute snapshot + positional/identity invariants",
+    "Generated projects (fields over their full integer widths, modules of all 42 types with controllers/options/bindings/payloads, link "
+    "operations, patterns/clones/empty slots with note cells, Unicode names, embedded projects, samplers; interior empty module positions via "
+    "a blank-and-reload stage) are saved and loaded; the loaded snapshot must equal the original one field by field, module positions must "
+    "be as constructed, index/parent/owner identities must hold, and re-saving must be stable.",
+    "Equality is defined by vlib.snapshot and its documented normalisations.",
+    "DESIGN.md §3 C01",
+)
+reg(
+    "C02",
+    "exploration",
+    "Hypothesis-generated module recipes for all 42 types; round trip in both serialization contexts + clone + differential between the two writers",
+    "Per generated module: Synth round trip, clone(), in-project round trip, and agreement of the stand-alone and in-project encodings on every "
+    "field both kinds of file carry; every type is visited by a guaranteed sweep with all controllers assigned, plus random draws.",
+    "Equality is defined by vlib.snapshot; x/y/layer/visualization are documented as absent from synth files.",
+    "DESIGN.md §3 C02",
+)
+
 NOT_APPLICABLE = {}
 
 ALL = ["C%02d" % i for i in range(1, 21)]
